@@ -27,8 +27,8 @@ type renderRun struct {
 }
 
 type renderTrace struct {
-	Refs   [][]any    `json:"refs"`
-	Blocks [][][]any  `json:"blocks"`
+	Refs   [][]any     `json:"refs"`
+	Blocks [][][]any   `json:"blocks"`
 	Runs   []renderRun `json:"runs"`
 }
 
